@@ -508,9 +508,17 @@ def c20_scenarios(tier, seed):
                 stack += [d for t in tasks if t["name"] == x for d in t["deps"]]
         # the log path differs per sandbox: expected command text is completed after the run (placeholder kept here)
         steps = [{"cwd": "proj", "argv": req + ["--json"], "env": {}}, {"cwd": "proj", "argv": req + ["--json"], "env": {}}, {"cwd": "proj", "argv": req + ["--quiet"], "env": {}},
-                 {"cwd": "proj", "argv": ["--show"], "env": {}}, {"cwd": "proj", "argv": ["--vars"], "env": {}}, {"cwd": "proj", "argv": [], "env": {}}]
+                 {"cwd": "proj", "argv": ["--show"], "env": {}}, {"cwd": "proj", "argv": ["--vars"], "env": {}}, {"cwd": "proj", "argv": [], "env": {}},
+                 {"cwd": "proj", "argv": ["--json"], "env": {}}]
         scen.append({"id": len(scen) + 1, "files": files, "steps": steps})
-        meta.append({"tasks": tasks, "vars": vars_, "req": req, "closure": clo, "modes": ["json", "json", "quiet", "show", "vars", "noargs"]})
+        dclo, stack = [], (["default"] if "default" in names else [])
+        while stack:
+            x = stack.pop()
+            if x not in dclo:
+                dclo.append(x)
+                stack += [d for t in tasks if t["name"] == x for d in t["deps"]]
+        meta.append({"tasks": tasks, "vars": vars_, "req": req, "closure": clo, "dclosure": dclo,
+                     "modes": ["json", "json", "quiet", "show", "vars", "noargs", "json-noargs"]})
     return scen, meta
 
 
@@ -526,8 +534,13 @@ def run_c20(ctx):
               "vars": mt["vars"], "req": mt["req"], "closure": mt["closure"]}
         steps, views = [], []
         for mode, st in zip(mt["modes"], r["steps"]):
-            v = {"mode": mode, "json_ok": False, "doc": [], "rows": [], "sorted": True, "listing": False}
+            v = {"mode": mode, "json_ok": False, "doc": [], "rows": [], "sorted": True, "listing": False, "closure": mt["closure"]}
             out = st["stdout"]
+            if mode == "json-noargs":
+                # spok --json without task names: the default task's run when one exists (otherwise unconstrained)
+                v["mode"] = "json" if mt["dclosure"] else "free"
+                v["closure"] = mt["dclosure"]
+                mode = v["mode"]
             if mode == "json":
                 try:
                     doc = json.loads(out)
